@@ -30,6 +30,9 @@ CLAIMED = {
  "C19": ("(a) failing inputs from C01's proptest generators x unicode on/off judged by an independent location/rendering oracle over the file texts; (b) proptest-generated logging programs that the generator evaluates itself, compared with the calls recorded by a collecting Logger (kind, file, line, text; quiet; @error = inspect); (c) worker stdout/stderr must stay empty",
          "Sampling of failing inputs and logging programs with shrinking; a green run means every explored error was located inside the named file and rendered, and every logging program delivered exactly the expected Logger calls.",
          "2/C19"),
+ "C20": ("differential CLI vs library over proptest-generated invocations (corpus entries, mutations, value-heavy sheets, logging programs, load-path projects, missing files) x flag subsets x {file, --stdin} x {stdout, output file}; oracle = the library run in-process on the same files with the equivalent Options: exit status, stdout/output-file bytes, stderr content",
+         "Sampling of invocations; a green run means the built binary agreed with the library on every explored invocation.",
+         "2/C20"),
  "C04": ("proptest-generated rule trees (style rules with & in every position, nested properties, @media/@supports/unknown at-rules, @at-root with/without queries); oracle = independent hand-flattening model compared as multiset, per at-rule-path order and global order",
          "Sampling of rule trees with shrinking; a green run means flattening agreed with the model on every generated tree (bounded depth 4 / width 3).",
          "2/C04"),
@@ -88,7 +91,7 @@ def main():
             na.append({"property_id": i, "reason": NOT_YET.get(i, "check not built yet in this revision of /verif (planned, see DESIGN.md §2); not a limitation of the technique")})
     m = {
         "version": 1,
-        "setup_cmd": "cd /verif/harness && CARGO_NET_OFFLINE=true cargo build --release --offline",
+        "setup_cmd": "cd /verif/harness && CARGO_NET_OFFLINE=true cargo build --release --offline && cd /verif && ./check --build-cli",
         "hooks": {
             "guard": "grass_verif",
             "enable": "none needed: every observation point is reachable through the public API (RUSTFLAGS='--cfg grass_verif' is reserved)",
